@@ -240,7 +240,7 @@ class BankMachine(Module):
             )
         )
         fsm.act("REFRESH",
-            If(twtpcon.ready,
+            If(twtpcon.ready & trascon.ready,
                 refresh_gnt.eq(1),
             ),
             row_close.eq(1),
